@@ -1,0 +1,77 @@
+//! Verification hooks, only compiled with `--cfg petrichorit_des_verif`.
+//!
+//! Observers are thread-local callbacks that are informed about writes to the
+//! simulation clock and about the timer state of a module after each of its events.
+//! Nothing in here changes the behaviour of a simulation.
+
+use crate::time::SimTime;
+use std::cell::RefCell;
+
+/// A write to the global simulation clock.
+#[derive(Debug, Clone, Copy, PartialEq, Eq)]
+pub struct ClockWrite {
+    /// The value of the clock before the write.
+    pub prev: SimTime,
+    /// The value of the clock after the write.
+    pub new: SimTime,
+}
+
+/// The timer state of a module, after an event of this module was processed.
+#[derive(Debug, Clone, PartialEq, Eq)]
+pub struct TimerState {
+    /// The path of the module.
+    pub module: String,
+    /// The current simulation time.
+    pub now: SimTime,
+    /// (deadline, number of waiting timers) for all timer slots in queue order.
+    pub slots: Vec<(SimTime, usize)>,
+    /// The time of the earliest wakeup event scheduled for this module (`SimTime::MAX` if none).
+    pub next_wakeup: SimTime,
+}
+
+type ClockObserver = Box<dyn FnMut(ClockWrite)>;
+type TimerObserver = Box<dyn FnMut(TimerState)>;
+
+thread_local! {
+    static CLOCK_OBSERVER: RefCell<Option<ClockObserver>> = const { RefCell::new(None) };
+    static TIMER_OBSERVER: RefCell<Option<TimerObserver>> = const { RefCell::new(None) };
+}
+
+/// Installs (or removes) the clock observer of this thread, returning the previous one.
+pub fn set_clock_observer(observer: Option<ClockObserver>) -> Option<ClockObserver> {
+    CLOCK_OBSERVER.with(|cell| std::mem::replace(&mut *cell.borrow_mut(), observer))
+}
+
+/// Installs (or removes) the timer observer of this thread, returning the previous one.
+pub fn set_timer_observer(observer: Option<TimerObserver>) -> Option<TimerObserver> {
+    TIMER_OBSERVER.with(|cell| std::mem::replace(&mut *cell.borrow_mut(), observer))
+}
+
+pub(crate) fn clock_write(prev: SimTime, new: SimTime) {
+    CLOCK_OBSERVER.with(|cell| {
+        if let Ok(mut guard) = cell.try_borrow_mut() {
+            if let Some(observer) = guard.as_mut() {
+                observer(ClockWrite { prev, new });
+            }
+        }
+    });
+}
+
+#[cfg(feature = "async")]
+pub(crate) fn timer_state(state: TimerState) {
+    TIMER_OBSERVER.with(|cell| {
+        if let Ok(mut guard) = cell.try_borrow_mut() {
+            if let Some(observer) = guard.as_mut() {
+                observer(state);
+            }
+        }
+    });
+}
+
+/// State of the simulator-global statics:
+/// (a module context is currently placed, number of buffered events, globals are attached).
+#[cfg(feature = "net")]
+#[must_use]
+pub fn statics() -> (bool, usize, bool) {
+    crate::net::verif_statics()
+}
